@@ -213,6 +213,21 @@ TYPE_SHAPES = [dict(la=0, lb=2, K=[1, 1], M=[1, 1], types=["spherical", "cartesi
 
 class OverlapBlock:
     fp = True  # also sampled on the unmodified float64 code (bounded stand-in for rounding)
+
+    def fp_shapes(self, tier):
+        # besides the ordinary samples: diffuse shells 26-30 bohr apart along one axis (exp(-mu R^2) ~ 1e-4: an intermediate
+        # exp(-R^2) would underflow), and tight shells a few 1e-3 bohr apart
+        extra = [dict(la=0, lb=0, K=[1, 1], M=[1, 1], profile="far-diffuse"), dict(la=1, lb=2, K=[1, 1], M=[1, 1], profile="far-diffuse"),
+                 dict(la=0, lb=1, K=[2, 1], M=[1, 1], profile="far-diffuse"), dict(la=1, lb=1, K=[1, 1], M=[1, 1], profile="tight-close")]
+        return self.shapes(tier) + extra
+
+    def fp_domain_for(self, shape):
+        if shape.get("profile") == "far-diffuse":
+            return {"pos": (0.02, 0.05), "zero_prob": 0.0, "real": 1.5, "by_prefix": {"d": (0.3, 1.5)},
+                    "real_by_prefix": {"AB_0": (26.0, 30.0, True), "AB_1": (0.0, 1.0), "AB_2": (0.0, 1.0)}}
+        if shape.get("profile") == "tight-close":
+            return {"pos": (2e3, 1e5), "zero_prob": 0.0, "real": 1.5, "real_by_prefix": {"AB": (1e-4, 3e-3, True), "P": (20.0, 40.0, True)}}
+        return {}
     """Overlap.construct_array_contraction(s1, s2)[m1,c1,m2,c2] = int phi~_{s1,m1,c1} phi~_{s2,m2,c2}
     (primitive-normalised, contraction not yet normalised), callees inlined; fresh; frame."""
 
